@@ -586,6 +586,12 @@ func TestKnownPolluters(t *testing.T) {
 		"如何步？\n    输入计\n    以计（自增：1）\n    输出计\n输出（步：7300）",
 		"导入《@JSON》\n（解析JSON：“null”），得到结果\n以结果（写入：“k”、1）\n输出结果",
 		"导入《@JSON》\n（解析JSON：“{}”），得到结果\n以结果（写入：“k”、1）\n输出结果",
+		// library calls that fail part-way (a value without JSON form after entries that have
+		// one; a document that breaks off), handled or not
+		"导入《@JSON》\n输出（生成JSON：【“甲” = 1，“乙” = 显示】）",
+		"导入《@JSON》\n输出（生成JSON：【“甲” = 【1，2，【“丙” = 异常】】】）\n拦截异常：\n    输出“生成不了”",
+		"导入《@JSON》\n输出（解析JSON：“{\"a\":[1,2,{\"b\":”）",
+		"导入《@JSON》\n输出（解析JSON：“{\"a\":1,\"b\":tru}”）\n拦截异常：\n    输出“解析不了”",
 		// file operations that fail (handled or not) or succeed
 		"导入《@文件》\n（写入文件：“无此目录/a.txt”、“x”）\n输出1",
 		"导入《@文件》\n（写入文件：“无此目录/a.txt”、“x”）\n输出1\n拦截异常：\n    输出2",
